@@ -112,6 +112,7 @@ def main(tier, replay):
                             f = l.split("\t")
                             if f[0] == "STATS":
                                 consumer_stats.update({x.split("=")[0]: int(x.split("=")[1]) for x in f[1:]})
+                                passes["client_okb(extracted) on the client actions of real KVTxn.Commit traces"] = consumer_stats.get("client_ok_traces", 0)
                             elif f[0] == "MISMATCH":
                                 mism.append(f[1:])
                             elif f[0] == "PROPFAIL":
@@ -192,7 +193,7 @@ def main(tier, replay):
                distinct_nontrivial=distinct,
                states=stats.get("nodes", 0), transitions=stats.get("edges", 0),
                exhaustive=(stats.get("trunc", 1) == 0),
-               rule="DFS with state hashing over every interleaving of the atomic steps (thread acquireSlot, unlock, scheduler pop / releaseSlot / wake-up acquireSlot, recycle) and macro edges (real acquire/release/wakeup): d2 = 2 txns, all intersecting key-set pairs of a 3-key pool x all start/commit options incl. ties x {1 slot, 2 slots with a collision}; d3 = sampled 3-txn configurations; d4 = sampled 4 txns x <=3 keys (4-key pool); dr = physical timestamps, 6 keys, in-line + external recycle; w = random walks 3-6 txns, 1-4 slots; d3x (thorough) = 3 txns exhaustively (all key-set triples <=2 keys, starts 1<2<3, commits {none,start+1,4}, 1/2 slots); sc/cap = scripts through the REAL LatchesScheduler (Lock/UnLock/Close, recycle trigger, 130 pending unlocks against the 100-slot channel) compared with the model at every quiescent point (exact quiescence from runtime.Stack); t-* = consumer tier: real KVTxn.Commit over mocktikv with EnableTxnLocalLatches (1-8 slots), 3-4 optimistic transactions with overlapping key sets, stale at first key / later key / on wake-up behind a directly held latch; oracle caller_contract (every Commit returns, no latch held when nobody is in flight) + every dump reproduced by a contract-following model client. distinct_nontrivial = distinct (op kind, result, resulting full state dump) edges whose resulting state has a waiter, a stale lock or a pending wake-up. DFS cases truncated by the node budget: %d" % stats.get("trunc", -1),
+               rule="DFS with state hashing over every interleaving of the atomic steps (thread acquireSlot, unlock, scheduler pop / releaseSlot / wake-up acquireSlot, recycle) and macro edges (real acquire/release/wakeup): d2 = 2 txns, all intersecting key-set pairs of a 3-key pool x all start/commit options incl. ties x {1 slot, 2 slots with a collision}; d3 = sampled 3-txn configurations; d4 = sampled 4 txns x <=3 keys (4-key pool); dr = physical timestamps, 6 keys, in-line + external recycle; w = random walks 3-6 txns, 1-4 slots; d3x (thorough) = 3 txns exhaustively (all key-set triples <=2 keys, starts 1<2<3, commits {none,start+1,4}, 1/2 slots); sc/cap = scripts through the REAL LatchesScheduler (Lock/UnLock/Close, recycle trigger, 130 pending unlocks against the 100-slot channel) compared with the model at every quiescent point (exact quiescence from runtime.Stack); t-* = consumer tier: real KVTxn.Commit over mocktikv with EnableTxnLocalLatches (1-8 slots), 3-4 optimistic transactions with overlapping key sets, stale at first key / later key / on wake-up behind a directly held latch; oracle caller_contract (every Commit returns, no latch held when nobody is in flight) + every dump reproduced by a contract-following model client + the extracted client_okb evaluated on the observed client actions (Lock / return / inferred UnLock) of every program; d2 with the Close edge (quick: every 4th configuration, thorough: all); drx = enumerated recycle class (6 keys in one slot, timestamps on both sides of the 2-minute expiry, in-line and external recycle). distinct_nontrivial = distinct (op kind, result, resulting full state dump) edges whose resulting state has a waiter, a stale lock or a pending wake-up. DFS cases truncated by the node budget: %d" % stats.get("trunc", -1),
                samples=samples[:10], traces_validated_against_impl=stats.get("edges", 0),
                input_distribution=classes, oracle_passes=passes, model_mismatches=len(mism), oracle_failures=len(pfails),
                stress_rounds=[" ".join(s) for s in stress],
